@@ -53,6 +53,50 @@ theorem scanPats_flat : ∀ (pats : List Pat) (s s' : Scan), pats.all flatPat = 
         exact ⟨by rw [h2, h1]; simp [flattenPats], fun hd => d2 (d1 hd)⟩
       · cases h
 
+theorem scanVals_all : ∀ (vs : List Expr) (s : Scan) (okL errL someL : Bool) (s' : Scan),
+    scanVals s okL errL someL vs = some s' → s'.all = s.all ++ vs ∧ (Distinct s.all → Distinct s'.all)
+  | [], s, _, _, _, s', h => by
+    simp only [scanVals, Option.some.injEq] at h; subst h; exact ⟨by simp, id⟩
+  | v :: vs, s, okL, errL, someL, s', h => by
+    have key : (s.all.any (patEq v ·)) = false ∧ ∃ s1 a b c, s1.all = s.all ++ [v] ∧ scanVals s1 a b c vs = some s' := by
+      simp only [scanVals] at h
+      split at h
+      · cases h
+      · rename_i hany
+        refine ⟨by simpa using hany, ?_⟩
+        repeat' (split at h)
+        all_goals (try (cases h; done))
+        all_goals exact ⟨_, _, _, _, rfl, h⟩
+    obtain ⟨hany, s1, a, b, c, hs1, hrec⟩ := key
+    obtain ⟨hall, hd⟩ := scanVals_all vs s1 a b c s' hrec
+    refine ⟨by rw [hall, hs1]; simp, fun hds => hd ?_⟩
+    rw [hs1]
+    simp only [Distinct] at hds ⊢
+    rw [List.pairwise_append]
+    refine ⟨hds, by simp, ?_⟩
+    intro x hx y hy
+    simp only [List.mem_singleton] at hy; subst hy
+    have := List.any_eq_false.mp hany x hx
+    simpa using this
+
+theorem scanPats_all : ∀ (pats : List Pat) (s s' : Scan), scanPats s pats = some s' →
+    s'.all = s.all ++ flattenPats pats ∧ (Distinct s.all → Distinct s'.all)
+  | [], s, s', h => by
+    simp only [scanPats, Option.some.injEq] at h; subst h; exact ⟨by simp [flattenPats], id⟩
+  | .default :: ps, s, s', h => by
+    simp only [scanPats] at h
+    simpa [flattenPats] using scanPats_all ps s s' h
+  | .values vs :: ps, s, s', h => by
+    simp only [scanPats] at h
+    split at h
+    · cases h
+    · split at h
+      · rename_i s1 hs1
+        obtain ⟨h1, d1⟩ := scanVals_all vs s false false false s1 hs1
+        obtain ⟨h2, d2⟩ := scanPats_all ps s1 s' h
+        exact ⟨by rw [h2, h1]; simp [flattenPats], fun hd => d2 (d1 hd)⟩
+      · cases h
+
 /-! ### typing of the flat patterns -/
 
 /-- source literal `v` of type `T` and what it is lowered to -/
